@@ -33,7 +33,7 @@ fuzz_target!(|data: &[u8]| {
         for _ in 0..rep {
             s.push(sym);
         }
-        if s.len() > 20_000 {
+        if s.len() > 8_000 {
             break;
         }
     }
